@@ -27,8 +27,8 @@ COQ = os.path.join(VERIF, "coq")
 OCAML = os.path.join(VERIF, "ocaml")
 HARNESS = os.path.join(VERIF, "harness")
 WORK = os.path.join(VERIF, "work")
-REPLAY = os.path.join(VERIF, "replay")
-EVIDENCE = os.path.join(VERIF, "evidence")
+REPLAY = os.environ.get("VERIF_REPLAY_DIR") or os.path.join(VERIF, "replay")
+EVIDENCE = os.environ.get("VERIF_EVIDENCE_DIR") or os.path.join(VERIF, "evidence")
 DRIVER_EXE = os.path.join(OCAML, "_build", "default", "driver", "driver.exe")
 HARNESS_EXE = os.path.join(HARNESS, "target", "debug", "harness")
 NPROC = min(16, os.cpu_count() or 4)
